@@ -73,6 +73,41 @@ func (m *Model) readsUnderLock(l Lit, f *ssa.Function, la *LockAnalysis, lock st
 // readsUnderLockAt: as readsUnderLock; with a use point `at` the reads made in at's function must
 // also belong to the lock hold that is current at `at` (no release between the read and the use).
 func (m *Model) readsUnderLockAt(l Lit, f *ssa.Function, la *LockAnalysis, lock string, at ssa.Instruction) (bool, ssa.Instruction) {
+	// a fact imported from a predicate helper (if !e.runningLocked() { return }): the reads are made
+	// inside the helper, i.e. at the call - which must sit in the lock hold
+	if l.Derived {
+		var h *ssa.Function
+		if l.If != nil {
+			if call, _, _, _, ok := m.resultTest(m.litOf(l.If.Cond, true, l.If)); ok {
+				h = call.Call.StaticCallee()
+			}
+		}
+		if vi, ok := l.S.V.(ssa.Instruction); ok && h == nil && vi.Parent() != f {
+			h = vi.Parent()
+		}
+		if h != nil && m.isLib(h) {
+			n := 0
+			var bad ssa.Instruction
+			for _, g := range m.bodyFns(f) {
+				eachInstr(g, func(in ssa.Instruction) {
+					call, ok := in.(*ssa.Call)
+					if !ok || call.Call.StaticCallee() != h {
+						return
+					}
+					n++
+					must := la.MustBefore(call)
+					if !must[lock+"/W"] && !must[lock+"/R"] {
+						bad = call
+					} else if at != nil && call.Parent() == at.Parent() && !m.sameHold(call, at, lock) {
+						bad = call
+					}
+				})
+			}
+			if n > 0 {
+				return bad == nil, bad
+			}
+		}
+	}
 	found, okAll := false, true
 	var bad ssa.Instruction
 	var walk func(s *Sym)
